@@ -31,6 +31,7 @@ type Sink struct {
 	AfterFail int   // calls received after the first failure
 	failed    bool
 	Hook      func() // called at every Write (yield injection)
+	Transient bool   // only the FailAt-th call fails; later calls succeed and are counted in AfterFail
 }
 
 func (s *Sink) Write(p []byte) (int, error) {
@@ -40,7 +41,11 @@ func (s *Sink) Write(p []byte) (int, error) {
 	}
 	if s.failed {
 		s.AfterFail++
-		return 0, s.FailErr
+		if !s.Transient {
+			return 0, s.FailErr
+		}
+		s.Buf.Write(p)
+		return len(p), nil
 	}
 	if s.FailAt > 0 && s.Calls == s.FailAt {
 		s.failed = true
@@ -65,6 +70,7 @@ type Setting struct {
 	Level   int
 	Win4K   bool
 	Dict    []byte
+	Hdr     *impl.Header // gzip only: header fields set before the first call
 }
 
 func (s Setting) String() string {
@@ -74,6 +80,12 @@ func (s Setting) String() string {
 	}
 	if s.Dict != nil {
 		x += fmt.Sprintf("/dict%d", len(s.Dict))
+	}
+	if s.Hdr != nil {
+		x += "/hdr"
+		if s.Hdr.Extra != nil {
+			x += fmt.Sprintf("/extra%d", len(s.Hdr.Extra))
+		}
 	}
 	return x
 }
@@ -105,7 +117,14 @@ func NewWriter(api *impl.API, s Setting, w io.Writer) (impl.Writer, error) {
 		}
 		return api.NewFlateWriter(w, s.Level)
 	case "gzip":
-		return api.NewGzipWriterLevel(w, s.Level)
+		z, err := api.NewGzipWriterLevel(w, s.Level)
+		if err == nil && z != nil && s.Hdr != nil {
+			z.SetHeader(*s.Hdr)
+		}
+		if err != nil || z == nil {
+			return nil, err
+		}
+		return z, nil
 	case "zlib":
 		if s.Dict != nil {
 			return api.NewZlibWriterLevelDict(w, s.Level, s.Dict)
@@ -553,7 +572,8 @@ func handBuiltGzipMember(r *gen.Rand, payload []byte, level int) []byte {
 	var extra, name, comment []byte
 	if r.Bool() {
 		flg |= 4
-		extra = r.Bytes(r.Range(0, 20))
+		// short, or longer than the read buffers in use (4096; 65535 is the maximum)
+		extra = r.Bytes(r.Pick(0, 1, 5, 20, 20, 20, 4096, 5000, 65535))
 	}
 	if r.Bool() {
 		flg |= 8
@@ -574,4 +594,80 @@ func handBuiltGzipMember(r *gen.Rand, payload []byte, level int) []byte {
 	hdr = append(hdr, byte(c16), byte(c16>>8))
 	out := append(hdr, encodeStd(payload, level, nil)...)
 	return append(out, gzipTrailer(payload)...)
+}
+
+// tokenCapFarCopy builds total bytes: K zeros, then random bytes (one token
+// each), with, at every point where a 4 KiB-window Writer's input buffer fills
+// (8450+4354j for the assembly finders, 8442+4346j for the Go finder), a short
+// near repeat followed by a 32-byte repeat from dist bytes back.
+func tokenCapFarCopy(r *gen.Rand, K, total, dist int) gen.Data {
+	d := make([]byte, total)
+	r.Fill(d[K:])
+	for _, ps := range [][2]int{{8450, 4354}, {8442, 4346}} {
+		for x := ps[0]; x+60 < total; x += ps[1] {
+			if x-dist-8 >= K {
+				copy(d[x:x+8], d[x-100:x-92])
+				copy(d[x+8:x+40], d[x+8-dist:x+8-dist+32])
+				copy(d[x+40:x+48], d[x-60:x-52])
+			}
+		}
+	}
+	return gen.Data{Desc: fmt.Sprintf("token-cap-far-copy/K=%d/dist=%d/%d", K, dist, total), B: d}
+}
+
+// Error values of unusual dynamic types for fault injection: a timeout-typed
+// error (net.Error style) and an error whose dynamic type is not comparable
+// (comparing two interface values holding it panics).
+type deadlineErr struct{ msg string }
+
+func (e *deadlineErr) Error() string   { return e.msg }
+func (e *deadlineErr) Timeout() bool   { return true }
+func (e *deadlineErr) Temporary() bool { return true }
+
+type sliceErr []string
+
+func (e sliceErr) Error() string { return "uncomparable error: " + e[0] }
+func (e sliceErr) Is(t error) bool {
+	o, ok := t.(sliceErr)
+	return ok && len(o) > 0 && len(e) > 0 && &o[0] == &e[0]
+}
+
+// faultError returns an injected error of the kind selected by k.
+func faultError(k int, msg string) (error, string) {
+	switch k % 5 {
+	case 3:
+		return &deadlineErr{msg}, "timeout-typed"
+	case 4:
+		return sliceErr{msg}, "uncomparable-type"
+	}
+	return errors.New(msg), "plain"
+}
+
+// gzipHeaderVariant returns header fields for a gzip Writer: nil (defaults), an
+// empty non-nil Extra, short and maximal Extra, names and comments.
+func gzipHeaderVariant(r *gen.Rand, k int) *impl.Header {
+	switch k % 6 {
+	case 1:
+		return &impl.Header{Extra: []byte{}}
+	case 2:
+		return &impl.Header{Extra: r.Bytes(r.Range(1, 40)), Name: "n"}
+	case 3:
+		return &impl.Header{Extra: r.Bytes(65535), Comment: "c"}
+	case 4:
+		return &impl.Header{Name: "name.txt", Comment: "comment", OS: 3}
+	case 5:
+		return &impl.Header{Extra: r.Bytes(r.Range(1, 600)), Name: "a", Comment: "b"}
+	}
+	return nil
+}
+
+// errIdentical is a == b for error values whose dynamic type may be
+// uncomparable (for those: b matches a through a's Is method).
+func errIdentical(a, b error) (same bool) {
+	defer func() {
+		if recover() != nil {
+			same = errors.Is(a, b)
+		}
+	}()
+	return a == b
 }
